@@ -25,6 +25,10 @@ def enum_cases():
                 for desig in ("indices", "vectors", "blocked"):
                     if carrier == "sympy" and desig == "vectors": continue
                     out.append({"hermitian": herm, "offenders": [(i, j)], "carrier": carrier, "designation": desig, "sizes": [1, 2, 1]})
+    # a mask of the non-Hermitian algorithm (no symmetry asked) with a single entry between two equal levels, below or above the diagonal
+    for side in ("lower", "upper"):
+        for carrier in ("dense", "sparse"):
+            out.append({"hermitian": False, "offenders": [], "carrier": carrier, "designation": "indices", "sizes": [2, 1], "feature": "fd-degenerate", "one_sided": side})
     return out
 
 def gen(rnd):
@@ -127,8 +131,9 @@ def build(cfg, rnd):
         if feature == "fd-asymmetric": mask = np.array([[False, True], [False, False]]); mf["symmetric"] = False
         if feature == "fd-degenerate":
             H0[a + 1, a + 1] = H0[a, a]; mf["eliminates_degenerate"] = True
-            if not herm and rnd.random() < 0.6:      # (no symmetry is asked of a mask in the non-Hermitian algorithm: one entry, on either side of the diagonal)
-                mask = np.array([[False, False], [True, False]]) if rnd.random() < 0.6 else np.array([[False, True], [False, False]]); mf["symmetric"] = False
+            side = cfg.get("one_sided") or (rnd.choice(["lower", "lower", "upper", None, None]) if not herm else None)
+            if not herm and side:      # (no symmetry is asked of a mask in the non-Hermitian algorithm: one entry, on either side of the diagonal)
+                mask = np.array([[False, False], [True, False]]) if side == "lower" else np.array([[False, True], [False, False]]); mf["symmetric"] = False
         val = mask
         if feature == "fd-not-array": val = mask.tolist(); mf["is_array"] = False
         if feature == "fd-bare":
@@ -196,7 +201,7 @@ def main(seed, ncases, driver, out):
     for c in range(len(enum) + ncases):
         if skip(c): continue
         rnd = case_rnd(seed, c)
-        cfg = dict(enum[c], feature="offdiag") if c < len(enum) else gen(rnd)
+        cfg = dict(enum[c], feature=enum[c].get("feature", "offdiag")) if c < len(enum) else gen(rnd)
         try:
             H, kw, facts, late, sizes = build(cfg, rnd)
         except Exception as e:
